@@ -25,7 +25,7 @@ KeyInts == {UInt(<<>>), UInt(<<24>>), UInt(FF(1)), UInt(Pow(1)), UInt(Pow(2)), N
 KeyStrs == {TStr(<<>>), TStr(<<98>>), TStr(<<97, 97>>)}
 \* the same for the quick tier (exhaustive over fewer keys)
 KeyIntsQ == {UInt(<<>>), UInt(<<24>>), UInt(FF(1)), UInt(Pow(1)), NInt(<<>>), NInt(<<24>>)}
-KeyStrsQ == {TStr(<<>>), TStr(<<97, 97>>)}
+KeyStrsQ == {TStr(<<>>), TStr(<<98>>), TStr(<<97, 97>>)}     \* "b" sorts after "aa" as a string, before it as an encoding
 NoTags == {}
 NoSimples == {}
 AllSimples == {False, True, Null}
